@@ -347,6 +347,43 @@ func runC14(c *mon.Ctx) {
 		if r.IntN(3) == 0 {
 			pre = gen.Descriptors(r, 60)
 		}
+		if i%8 == 5 {
+			// the declared length runs past the end of the LOOP (or the loop ends inside the two bytes of a descriptor header): what
+			// follows the loop — the next loop entry — may not be shifted by it: an error, or the parse ends where the loop ends
+			lw := &refts.W{}
+			for _, p := range pre {
+				refts.EncodeDescriptor(lw, p)
+			}
+			over := 1 + r.IntN(12)
+			kind = "beyond-loop"
+			if r.IntN(4) == 0 {
+				kind = "loop-ends-inside-a-header"
+				lw.Bytes([]byte{d.Tag})
+			} else {
+				if len(body)+over > 255 {
+					continue
+				}
+				lw.Bytes([]byte{d.Tag, byte(len(body) + over)})
+				lw.Bytes(body)
+			}
+			loop := append([]byte{0xF0 | byte(lw.Len()>>8), byte(lw.Len())}, lw.B...)
+			in := append(append([]byte{}, loop...), gen.Bytes(r, 300)...) // the entries that follow the loop
+			cls := tagClass(d.Tag) + ":" + kind
+			data := map[string]any{"loop": mon.Hex(loop, 700), "malformed_tag": fmt.Sprintf("%#02x", d.Tag), "followed_by": mon.Hex(in[len(loop):], 16)}
+			var off int
+			var gerr error
+			if p, v, st := mon.Guarded(func() { _, off, gerr = astits.VerifParseDescriptors(in) }); p {
+				c.Violate("C14/malformed/panic:"+tagClass(d.Tag), "malformed", i, fmt.Sprintf("%v\n%s", v, st), data)
+				continue
+			}
+			c.Count("malformed_length_cases")
+			c.Count("malformed_" + kind)
+			if gerr == nil && off != len(loop) {
+				c.Violate("C14/malformed/end-offset:"+cls, "malformed", i, fmt.Sprintf("parse ended at %d without an error, the loop ends at %d: what follows the loop is read from the wrong place", off, len(loop)), data)
+			}
+			c.Case(mon.HashBytes("malformed", loop), true)
+			continue
+		}
 		lw := &refts.W{}
 		for _, p := range pre {
 			refts.EncodeDescriptor(lw, p)
